@@ -17,7 +17,7 @@ prop(
     "C11",
     level="proof",
     design_ref="DESIGN.md section 3, C11",
-    groups=[(["./plugin/input/http"], r"^(\(\*Plugin\)\.(processChunk|processBulk|newReadBuff|newEventBuffs|serveBulk|getSourceID|putSourceID|ServeHTTP|auth|authBasic|authBearer|acquireGzipReader)|newMetaInformation|getUserIP|\(\*CORSConfig\)\.getAllowedByOrigin)$")],
+    groups=[(["./plugin/input/http"], r"^(\(\*Plugin\)\.(processChunk|processBulk|newReadBuff|newEventBuffs|serveBulk|getSourceID|putSourceID|ServeHTTP|auth|authBasic|authBearer|acquireGzipReader|Start)|newMetaInformation|getUserIP|\(\*CORSConfig\)\.getAllowedByOrigin)$")],
     canaries=[("./plugin/input/http", "replay/C11/zz_content_encoding_case_test.go", "TestVerifContentEncodingAnyCase")],
     claim=(
         "For every request body, every chunking of it into reads (io.Reader.Read may return any n) and every buffer state, "
@@ -419,7 +419,7 @@ prop(
             (["./metric"], r"truncateLabels$"),
             (["./plugin/action/decode", "./pipeline"], r"^\(\*Plugin\)\.(Do|decodeJson|checkError)$"),
             (["./plugin/action/parse_es", "./pipeline"], r"^\(\*Plugin\)\.Do$"),
-            (["./plugin/action/cardinality"], r"^\(\*Plugin\)\.Start$"),
+            (["./plugin/action/cardinality"], r"^(parseFields|\(\*Plugin\)\.Start)$"),
             (["./plugin/action/modify"], r"^\(\*Plugin\)\.Do$"),
             (["./plugin/action/throttle"], r"^\(\*Plugin\)\.Start$")],
     canaries=[("./plugin/action/mask", "replay/C17/zz_replay_c17_test.go", "TestVerifReplayC17Tail"), ("./plugin/input/k8s", "replay/C13/zz_replay_c13_test.go", "TestVerifReplayC13"),
